@@ -5,7 +5,7 @@ From V.c14 Require Import C14Model.
 From V.c15 Require Import C15Model C15HevcModel.
 From V.c17 Require Import C17Spec C17Model C17TypedModel.
 From V.c18 Require Import C18Model.
-From V.c16 Require Import C16Model C16ParseModel C16AuxModel C16SeiNaluModel C16ConfRecModel C16HevcParseModel C16HevcPipeModel.
+From V.c16 Require Import C16Model C16ParseModel C16AuxModel C16SeiNaluModel C16ConfRecModel C16HevcParseModel C16HevcPipeModel C16Av1EncModel.
 Require Import ExtrOcamlBasic.
 Separate Extraction
   avc_get_nalus_from_sample avc_find_nalu_types avc_find_nalu_types_upto
@@ -19,7 +19,7 @@ Separate Extraction
   extract_sei_data_go C17TypedModel.tc_decode C17TypedModel.pt_decode
   avc_pt_of_sps avc_parse_sei_nalu hevc_parse_sei_nalu
   avc_decode_dec_conf_rec hevc_decode_dec_conf_rec hevc_decode_full av1_decode_codec_conf_rec
-  hevc_arr_complete hevc_arr_type
+  hevc_arr_complete hevc_arr_type av1_encode av1_decode_encode av1_size
   c16_hparse_sps c16_hparse_pps c16_hparse_slice hsps_lookup hpps_lookup hsps_has hevc_ps_and_slice
   hevc_sps_and_sei hevc_confrec_and_slice parse_hsps_list parse_hpps_list
   decode_adts_t C18Model.decode_asc
